@@ -13,6 +13,15 @@ def P(src, variant, name, args=None, tiers=('quick', 'thorough'), tier_args=None
 
 
 CHECKS = {
+    'C19': {
+        'engine': 'seqx',
+        'rule': 'BigInt state exploration vs schoolbook reference',
+        'parts': [
+            P('props/C19.cpp', 'fast', 'bigint-fast'),
+            P('props/C19.cpp', 'asan', 'bigint-asan', tier_args={'quick': ['--depth', '2', '--dspan', '512'], 'thorough': ['--depth', '3', '--dspan', '4096']}),
+        ],
+        'floor': {'quick': 1000, 'thorough': 1000},
+    },
     'C11': {
         'engine': 'numx',
         'rule': 'format(17)/parse round trip on double and float lattices',
